@@ -1,4 +1,5 @@
 import SurfModel.Payload
+import SurfModel.NamingTable
 /-!
 # C04 — what a terminal sends: the protocols, written from the protocol documents
 
@@ -19,7 +20,6 @@ open SurfModel.Vt SurfModel.Sgr SurfModel.Grammar SurfModel.Payload
 /-! ## printing helpers -/
 
 def ESCb : Nat := 27
-def CSI : List Nat := [27, 91]
 def ST : List Nat := [27, 92]
 
 /-- lower case hexadecimal with exactly `n` digits (most significant first) -/
@@ -40,45 +40,6 @@ def joinWith (sep : Nat) : List (List Nat) → List Nat
   | [] => []
   | [c] => c
   | c :: rest => c ++ sep :: joinWith sep rest
-
-/-! ## keys: the library's naming table (xterm / fixterms spellings) -/
-
-def lowerLetters : List Nat := (List.range 26).map (· + 97)
-def upperLetters : List Nat := (List.range 26).map (· + 65)
-def digitChars : List Nat := (List.range 10).map (· + 48)
-/-- ASCII punctuation -/
-def punctChars : List Nat :=
-  (List.range 15).map (· + 33) ++ (List.range 7).map (· + 58) ++ (List.range 6).map (· + 91) ++
-    (List.range 4).map (· + 123)
-
-/-- `CSI number ~` keys (VT220 / xterm / rxvt numbering as the library names them) -/
-def tildeKeys : List (KeyName × Nat) :=
-  [(.home, 1), (.insert, 2), (.delete, 3), (.end, 4), (.pageUp, 5), (.pageDown, 6), (.insert, 7), (.end, 8),
-   (.f 1, 11), (.f 2, 12), (.f 3, 13), (.f 4, 14), (.f 5, 15), (.f 6, 17), (.f 7, 18), (.f 8, 19), (.f 9, 20),
-   (.f 10, 21), (.f 11, 23), (.f 12, 24)]
-
-/-- `CSI X` / `SS3 X` keys: name, introducer byte after ESC of the unmodified form, final byte -/
-def letterKeys : List (KeyName × Nat × Nat) :=
-  [(.up, 91, 65), (.down, 91, 66), (.right, 91, 67), (.left, 91, 68), (.end, 91, 70), (.home, 91, 72),
-   (.f 1, 79, 80), (.f 1, 91, 80), (.f 2, 79, 81), (.f 2, 91, 81), (.f 3, 79, 82), (.f 3, 91, 82),
-   (.f 4, 79, 83), (.f 4, 91, 83)]
-
-/-- modifier parameter `1 + mask`, mask = shift 1, alt 2, ctrl 4 -/
-def modMasks : List Nat := [1, 2, 3, 4, 5, 6, 7]
-
-/-- every spelling of every key of the naming table -/
-def protoKeys : List (List Nat × Key) :=
-  [([27], ⟨.esc, 0⟩), ([127], ⟨.backspace, 0⟩), ([0], ⟨.char 32, modCtrl⟩)] ++
-  lowerLetters.flatMap (fun c => [([27, c], ⟨.char c, modAlt⟩), ([c - 96], ⟨.char c, modCtrl⟩)]) ++
-  upperLetters.map (fun c => ([27, c], ⟨.char (c + 32), modAlt + modShift⟩)) ++
-  punctChars.map (fun c => ([27, c], ⟨.char c, modAlt⟩)) ++
-  digitChars.map (fun c => ([27, c], ⟨.char c, modAlt⟩)) ++
-  tildeKeys.flatMap (fun p =>
-    (CSI ++ showNat p.2 ++ [126], ⟨p.1, 0⟩) ::
-      modMasks.map fun m => (CSI ++ showNat p.2 ++ [59] ++ showNat (m + 1) ++ [126], ⟨p.1, m⟩)) ++
-  letterKeys.flatMap (fun p =>
-    ([27, p.2.1, p.2.2], ⟨p.1, 0⟩) ::
-      modMasks.map fun m => (CSI ++ [49, 59] ++ showNat (m + 1) ++ [p.2.2], ⟨p.1, m⟩))
 
 /-! ## mouse: the library's button naming -/
 
@@ -332,6 +293,12 @@ def Msg.family : Msg → Family
   | .kittyImage .. => .kittyImage
   | .paste _ => .paste
   | .sgr _ => .sgr
+
+/-- the tag under which the event automaton recognises a message: the code of its key for literal keys
+    (`MatcherTag::Item`), the tag of its family otherwise (`MatcherTag::Matcher(index)`) -/
+def Msg.tag : Msg → Nat
+  | .key i => ((protoKeys[i]?.map Prod.snd).getD ⟨.esc, 0⟩).code
+  | m => m.family.tag
 
 /-- a string of text: well-formed UTF-8 without ESC -/
 def TextOk (t : List Nat) : Prop := validUtf8 t = true ∧ 27 ∉ t ∧ ∀ b ∈ t, b < 256
